@@ -517,6 +517,8 @@ class _FuncAnalysis:
             self.write(self.own(c.args[0]), c, f"np.{name} (in-place numpy function)")
         tg = self.p.resolve_call(c, self.f)
         if not tg:
+            if isinstance(fn, ast.Attribute) and name == "pop" and isinstance(fn.value, ast.Attribute) and fn.value.attr == "__dict__":
+                return   # obj.__dict__.pop(key, ..) removes a field of obj (the statement form is `del obj.__dict__[key]`): a rebind, judged by C11.rebind, not a write into array storage
             if isinstance(fn, ast.Attribute) and name in INPLACE_METHODS:
                 base = self.own(fn.value)
                 self.write({t for t in base if t[0] in ("P", "C", "PL", "SA")}, c, f"in-place method .{name}()")
